@@ -46,7 +46,13 @@ GRAMMARS = {
     "cut": "start = a | b ;\na = 'x' ~ 'y' ;\nb = 'x' 'z' ;\n",
     "two": "start = second $ ;\nfirst = /\\d+/ ;\nsecond = /[a-z]+/ ;\n",
     "bad": "start = undefined_rule $ ;\n",                                # compile error
-    "typed_d": "start = word $ ;\nword::Num = /[a-z]+/ ;\n",                # type name 'Num' again, on another rule
+    "typed_d": "start = word $ ;\nword::Num = /[a-z]+/ ;\n",
+    # type names that are also names of the library's own (SynthNode, Node, BaseNode, Any, Model): wherever synthesized
+    # classes are kept, they must not displace what the library itself looks up by those names
+    "typed_s": "start::SynthNode = v:/\\d+/ $ ;\n",
+    "typed_n": "start = a b $ ;\na::Node = /\\d+/ ;\nb::BaseNode::Any = /[a-z]+/ ;\n",
+    # one type name under two base chains in ONE grammar: which bases the class gets must not depend on which rule ran first
+    "typed_e": "start = a | b ;\na::X::P = 'a' ;\nb::X::Q = 'b' ;\n",                # type name 'Num' again, on another rule
     # values that are equal but of different types (1, 1.0, True): anything keyed by value may confuse them
     "nums": "start = value $ ;\nvalue = real | integer | flag ;\ninteger::int = /\\d+/ ;\nreal::float = /\\d+\\.\\d+/ ;\nflag::bool = 'yes' ;\n",
     "nums_b": "start = value $ ;\nvalue = integer | flag ;\ninteger::int = /\\d+/ ;\nflag::bool = 'yes' | 'on' ;\n",
@@ -117,6 +123,9 @@ INPUTS = {
     "two": ["ab", "12"],
     "bad": ["x"],
     "typed_d": ["ab", "1"],
+    "typed_s": ["1", "a"],
+    "typed_n": ["1 a", "1"],
+    "typed_e": ["a", "b", "c"],
     "nums": ["1", "1.0", "yes", "0", "0.0", "2", "2.5", "x"],
     "nums_b": ["1", "yes", "on", "0", "1.0"],
     "cn_a": ["7", "x"],
@@ -161,7 +170,7 @@ for _g, _ts in INPUTS.items():
             for _v in (_t[:-1] + "\n", _t + "\n", _t[:-1] + " "):
                 if _v not in _ts:
                     _ts.append(_v)
-FAMILIES = [["typed", "typed_b", "typed_c", "params", "typed_d", "typed_tok"], ["kw", "icase", "kw_b", "kw_c"], ["ref", "two", "choice", "ws", "choice_b"], ["lrec", "cut", "over", "named", "const", "lrec_b"],
+FAMILIES = [["typed", "typed_b", "typed_c", "params", "typed_d", "typed_tok", "typed_s", "typed_n", "typed_e"], ["kw", "icase", "kw_b", "kw_c"], ["ref", "two", "choice", "ws", "choice_b"], ["lrec", "cut", "over", "named", "const", "lrec_b"],
             ["nums", "nums_b"], ["cmt_a", "cmt_b", "cmt_c"], ["clo", "clo_b", "opt", "join", "nlist", "clo_n", "opt_n"], ["inh", "nomemo", "kwparams", "kwparams_b", "params"], ["eol", "ws"], ["wide", "wide_b", "kw"], ["bt", "bt_b", "lrec", "choice"], ["tok_a", "tok_b", "pat_a", "pat_b"], ["cn_a", "cn_b", "cn_c", "cn_d", "const"]]
 FAMILY_RULES = {"bt": ["start", "num", "e", "n", "x"], "cmt_a": ["start", "num"], "clo": ["start", "item", "word", "num"], "inh": ["start", "base", "sub", "a", "num"], "eol": ["start", "w", "word"], "nums": ["start", "value", "integer", "real", "flag"], "tok_a": ["start"], "typed": ["start", "num", "word", "nosuch"], "kw": ["start", "name", "stmt"], "ref": ["start", "num", "word", "first", "second", "x", "nosuch"],
                 "lrec": ["start", "e", "n", "a", "b", "num"]}
@@ -1175,7 +1184,7 @@ def gen_call(rng, handles, models_only=False, allow_fault=True, focus=None):
     return op
 
 
-GOOD_INPUT = {"wide": "undo", "wide_b": "add 1", "clo_n": "1", "opt_n": "let a = 1", "bt": "1-2", "bt_b": "a-b", "cmt_a": "1 (* c *) 2", "cmt_b": "1 {c} 2", "cmt_c": "1 2", "clo": "1", "clo_b": "1", "opt": "-1!", "join": "1", "nlist": "1,2", "inh": "x y", "nomemo": "x", "kwparams": "1", "kwparams_b": "1", "eol": "a\nb", "choice_b": "0x1f", "lrec_b": "a+b", "typed_tok": "begin 42", "kw_c": "IF", "manypat": "x71y", "cn_a": "7", "cn_b": "x", "cn_c": "x", "cn_d": "7 ab", "nums": "1", "nums_b": "1", "tok_a": "end if", "tok_b": "end  if", "pat_a": "12 34", "pat_b": "12  34", "ref": "12 ab", "choice": "a", "typed": "1", "typed_b": "1", "typed_c": "1 a", "typed_d": "ab", "params": "1", "kw": "x", "kw_b": "x",
+GOOD_INPUT = {"typed_s": "1", "typed_n": "1 a", "typed_e": "b", "wide": "undo", "wide_b": "add 1", "clo_n": "1", "opt_n": "let a = 1", "bt": "1-2", "bt_b": "a-b", "cmt_a": "1 (* c *) 2", "cmt_b": "1 {c} 2", "cmt_c": "1 2", "clo": "1", "clo_b": "1", "opt": "-1!", "join": "1", "nlist": "1,2", "inh": "x y", "nomemo": "x", "kwparams": "1", "kwparams_b": "1", "eol": "a\nb", "choice_b": "0x1f", "lrec_b": "a+b", "typed_tok": "begin 42", "kw_c": "IF", "manypat": "x71y", "cn_a": "7", "cn_b": "x", "cn_c": "x", "cn_d": "7 ab", "nums": "1", "nums_b": "1", "tok_a": "end if", "tok_b": "end  if", "pat_a": "12 34", "pat_b": "12  34", "ref": "12 ab", "choice": "a", "typed": "1", "typed_b": "1", "typed_c": "1 a", "typed_d": "ab", "params": "1", "kw": "x", "kw_b": "x",
               "icase": "x", "ws": "ab cd", "const": "a", "named": "1", "over": "(1)", "lrec": "1", "cut": "x y", "two": "ab"}
 
 
@@ -1522,6 +1531,7 @@ def gen_builder_history(rng, handles):
 
 # grammars whose TEXT takes seconds to parse when memoization is off (nested groups, wide choices: the grammar of grammars
 # backtracks): a compile with memoization=False would cost 2-15 s (x5 under the line tracer) for no additional reach
+CONTRADICTORY_TYPES = {"typed_e"}
 SLOW_NOMEMO = {"clo_n", "opt_n", "wide", "wide_b", "manypat"}
 
 
@@ -1971,7 +1981,13 @@ def run(spec: dict, decider: Decider, keep_events: bool = False) -> RunResult:
     except Violation as v:
         viol = v
     if viol is not None:
-        rr.violation = {"clause": viol.clause, "detail": viol.detail[:3000], "signature": f"{PROP}:{viol.clause}:{viol.disc}"}
+        sig = f"{PROP}:{viol.clause}:{viol.disc}"
+        # a spec that is entirely about a grammar with a self-contradictory type declaration (one type name under two
+        # base chains) carries that in its signature: what follows from it is the listed known finding, nothing new
+        gs = {op.get("g") for seq in ([spec.get("ops", []), spec.get("prefix", [])] + list(spec.get("threads", []))) for op in seq if op.get("g")}
+        if gs and gs <= CONTRADICTORY_TYPES:
+            sig += "/one-type-two-bases"
+        rr.violation = {"clause": viol.clause, "detail": viol.detail[:3000], "signature": sig}
     rr.events = events
     h = hashlib.sha256(json.dumps([events, rr.decisions], sort_keys=True, default=repr).encode())
     rr.digest = h.hexdigest()[:24]
